@@ -301,6 +301,61 @@ func c07Samples(c *core.C) {
 	}
 }
 
+// c07AddBlockPath enters content through AddBlock(ParsedBlock) - the path the text parser's output
+// takes - with a fact in the middle of the call that the builder refuses as a duplicate: the facts
+// accepted before and after the refusal (with symbols nobody has seen) are what the caller put in.
+// Done once on a block builder (child appended to a live token) and once on a root builder.
+func c07AddBlockPath(c *core.C, f *Family) {
+	n := len(f.Tokens)
+	mkParsed := func(tag string) (biscuit.ParsedBlock, []ast.Pred) {
+		first := ast.P("x_"+tag, ast.Str("one_"+tag))
+		kept := ast.P("kept_"+tag, ast.Str("alpha_"+tag))
+		last := ast.P("tail_"+tag, ast.Str("omega_"+tag), ast.Int(7))
+		return biscuit.ParsedBlock{Facts: []biscuit.Fact{first.LibFact(), kept.LibFact(), first.LibFact(), last.LibFact()}}, []ast.Pred{first, kept}
+	}
+	after := func(tag string) ast.Pred { return ast.P("other_"+tag, ast.Str("beta_"+tag)) }
+	var p *Live
+	for _, l := range f.Tokens {
+		if !l.T.Sealed {
+			p = l
+		}
+	}
+	if p != nil {
+		tag := fmt.Sprintf("b%d", n)
+		pb, accepted := mkParsed(tag)
+		var child *biscuit.Biscuit
+		var err error
+		if pi := lib.Try(func() {
+			bb := p.T.B.CreateBlock()
+			_ = bb.AddBlock(pb) // stops at the duplicate with ErrDuplicateFact
+			_ = bb.AddFact(after(tag).LibFact())
+			child, err = p.T.B.Append(f.rng, bb.Build())
+		}); pi != nil {
+			c.Violate("addblock-panic/"+pi.Site, pi.Msg, nil)
+		} else if err == nil {
+			model := ast.Block{Facts: append(accepted, after(tag))}
+			f.add(&Live{T: &lib.Token{B: child, Blocks: append(append([]ast.Block{}, p.T.Blocks...), model), Pub: p.T.Pub, Priv: p.T.Priv, KeyID: p.T.KeyID}, Prov: append(append([]int{}, p.Prov...), f.ev()), Origin: "append"}, "append(AddBlock with a refused duplicate)")
+			c.Count("addblock_paths", 1)
+		}
+	}
+	root := f.Tokens[0]
+	tag := fmt.Sprintf("a%d", n)
+	pb, accepted := mkParsed(tag)
+	var tok *biscuit.Biscuit
+	var err error
+	if pi := lib.Try(func() {
+		bld := biscuit.NewBuilder(root.T.Priv, biscuit.WithRNG(f.rng))
+		_ = bld.AddBlock(pb)
+		_ = bld.AddAuthorityFact(after(tag).LibFact())
+		tok, err = bld.Build()
+	}); pi != nil {
+		c.Violate("addblock-panic/"+pi.Site, pi.Msg, nil)
+	} else if err == nil {
+		f.add(&Live{T: &lib.Token{B: tok, Blocks: []ast.Block{{Facts: append(accepted, after(tag))}}, Pub: root.T.Pub, Priv: root.T.Priv}, Prov: []int{f.ev()}, Origin: "build"}, "build(AddBlock with a refused duplicate)")
+		c.Count("addblock_paths", 1)
+	}
+}
+
 func c07Run(c *core.C) {
 	if c.Idx == 0 {
 		c07Samples(c)
@@ -316,6 +371,7 @@ func c07Run(c *core.C) {
 	if !f.randomHistory(c, 3+c.R.Intn(5), keyID, mk) {
 		return
 	}
+	c07AddBlockPath(c, f)
 	for i := range f.Tokens {
 		c07CheckToken(c, f, i)
 	}
